@@ -40,6 +40,7 @@ pub struct ProcOut<T> {
     pub fs_ops: u64,
     pub short_writes: u64,
     pub short_reads: u64,
+    pub eintrs: u64,
     pub fs_faults_fired: BTreeMap<&'static str, u64>,
     pub unmodelled: Vec<String>,
 }
@@ -127,6 +128,7 @@ where
             fs_ops: w.fs.ops_total,
             short_writes: w.fs.short_writes,
             short_reads: w.fs.short_reads,
+            eintrs: w.fs.eintrs,
             fs_faults_fired: w.fs.faults_fired.clone(),
             unmodelled: std::mem::take(&mut w.unmodelled),
         }
